@@ -532,7 +532,7 @@ func (c *compiler) compile(tok *token) []instruction {
 			types = append(types, t)
 		}
 		for _, arg := range tok.Tokens[funcArguments].Tokens {
-			c.Locals.Index(arg.Text)
+			c.Locals.Shadow(arg.Text) // every parameter has its own slot, also a second blank one
 		}
 		if arguments > 0 && tok.Tokens[funcArguments].Tokens[arguments-1].Tokens[0].Text == "..." {
 			arguments = -arguments
